@@ -678,3 +678,185 @@ Proof.
   assert (ia = 0) by lia. assert (ib = 1) by lia. assert (ic = 2) by lia. assert (id = 3) by lia.
   subst ia ib ic id. repeat split; assumption.
 Qed.
+
+(* ---------------------------------------------------------------------- *)
+(** * findMSBSetNonZero64 and CommonAncestorLevel *)
+
+(** bits inside a window *)
+Lemma land_in_window : forall a p w, 0 <= a -> 0 <= p -> 0 <= w ->
+  Z.land a ((2^w - 1) * 2^p) = ((a / 2^p) mod 2^w) * 2^p.
+Proof.
+  intros a p w Ha Hp Hw.
+  assert (EW : (2^w - 1) * 2^p = Z.shiftl (Z.ones w) p).
+  { rewrite Z.shiftl_mul_pow2 by lia. rewrite Z.ones_equiv. unfold Z.pred. ring. }
+  rewrite EW.
+  assert (E5 : Z.land a (Z.shiftl (Z.ones w) p) = Z.shiftl (Z.land (Z.shiftr a p) (Z.ones w)) p).
+  { apply Z.bits_inj'. intros n Hn. rewrite Z.land_spec. rewrite !Z.shiftl_spec by lia.
+    destruct (Z.leb_spec p n).
+    - rewrite Z.land_spec, Z.shiftr_spec by lia. replace (n - p + p) with n by ring. reflexivity.
+    - rewrite !(Z.testbit_neg_r _ (n - p)) by lia. apply andb_false_r. }
+  rewrite E5. rewrite Z.land_ones by lia. rewrite Z.shiftr_div_pow2 by lia.
+  rewrite Z.shiftl_mul_pow2 by lia. reflexivity.
+Qed.
+
+(** one halving step of the most-significant-bit search *)
+Lemma msb_step : forall x s, 0 < s -> 0 < x < 2^(2*s) ->
+  (Z.land x (2^(2*s) - 2^s) =? 0) = (x <? 2^s) /\
+  (2^s <= x -> 0 < Z.shiftr x s < 2^s /\ Z.log2 x = s + Z.log2 (Z.shiftr x s)).
+Proof.
+  intros x s Hs Hx.
+  assert (Hp : 0 < 2^s) by (apply Z.pow_pos_nonneg; lia).
+  assert (E2 : 2^(2*s) = 2^s * 2^s) by (rewrite <- Z.pow_add_r by lia; f_equal; lia).
+  replace (2^(2*s) - 2^s) with ((2^s - 1) * 2^s) by (rewrite E2; ring).
+  rewrite land_in_window by lia.
+  assert (Hq : 0 <= x / 2^s < 2^s).
+  { split; [apply Z.div_pos; lia|]. apply Z.div_lt_upper_bound; lia. }
+  rewrite (Z.mod_small (x / 2^s) (2^s)) by lia.
+  split.
+  - destruct (Z.ltb_spec x (2^s)) as [Hlt|Hge].
+    + rewrite Z.div_small by lia. reflexivity.
+    + apply Z.eqb_neq. assert (1 <= x / 2^s) by (apply Z.div_le_lower_bound; lia). nia.
+  - intros Hge. rewrite Z.shiftr_div_pow2 by lia.
+    assert (H1 : 1 <= x / 2^s) by (apply Z.div_le_lower_bound; lia).
+    split; [lia|].
+    set (q := x / 2^s) in *.
+    pose proof (Z.log2_spec q ltac:(lia)) as Lq.
+    assert (0 <= Z.log2 q) by apply Z.log2_nonneg.
+    apply Z.log2_unique; [lia|].
+    pose proof (Z.div_mod x (2^s) ltac:(lia)) as Hd. pose proof (Z.mod_pos_bound x (2^s) ltac:(lia)) as Hb. fold q in Hd.
+    rewrite Z.pow_add_r by lia. replace (Z.succ (s + Z.log2 q)) with (s + Z.succ (Z.log2 q)) by lia.
+    rewrite Z.pow_add_r by lia. nia.
+Qed.
+
+Definition mstep (s : Z) (st : Z * Z) : Z * Z :=
+  let '(x, pos) := st in
+  if negb (Z.land x (2^(2*s) - 2^s) =? 0) then (go_shr x s, Z.lor pos s) else (x, pos).
+
+Lemma findMSB_unfold : forall x,
+  s2_findMSBSetNonZero64 x =
+  wrap_i64 (snd (mstep 1 (mstep 2 (mstep 4 (mstep 8 (mstep 16 (mstep 32 (x, 0)))))))).
+Proof.
+  intros x. unfold s2_findMSBSetNonZero64. cbv zeta.
+  change (zrange_down 5 0) with [5; 4; 3; 2; 1; 0].
+  match goal with |- context [fold_left ?f _ _] => set (F := f) end.
+  assert (HF : forall st, F st 5 = mstep 32 st /\ F st 4 = mstep 16 st /\ F st 3 = mstep 8 st /\
+                          F st 2 = mstep 4 st /\ F st 1 = mstep 2 st /\ F st 0 = mstep 1 st).
+  { intros (y, pos). unfold F, mstep.
+    change (nthZ [2; 12; 240; 65280; 4294901760; 18446744069414584320] 5 0) with (2^(2*32) - 2^32).
+    change (nthZ [2; 12; 240; 65280; 4294901760; 18446744069414584320] 4 0) with (2^(2*16) - 2^16).
+    change (nthZ [2; 12; 240; 65280; 4294901760; 18446744069414584320] 3 0) with (2^(2*8) - 2^8).
+    change (nthZ [2; 12; 240; 65280; 4294901760; 18446744069414584320] 2 0) with (2^(2*4) - 2^4).
+    change (nthZ [2; 12; 240; 65280; 4294901760; 18446744069414584320] 1 0) with (2^(2*2) - 2^2).
+    change (nthZ [2; 12; 240; 65280; 4294901760; 18446744069414584320] 0 0) with (2^(2*1) - 2^1).
+    change (nthZ [1; 2; 4; 8; 16; 32] 5 0) with 32. change (nthZ [1; 2; 4; 8; 16; 32] 4 0) with 16.
+    change (nthZ [1; 2; 4; 8; 16; 32] 3 0) with 8. change (nthZ [1; 2; 4; 8; 16; 32] 2 0) with 4.
+    change (nthZ [1; 2; 4; 8; 16; 32] 1 0) with 2. change (nthZ [1; 2; 4; 8; 16; 32] 0 0) with 1.
+    repeat split; match goal with |- context [if ?b then _ else _] => destruct b end; reflexivity. }
+  cbn [fold_left].
+  destruct (HF (x, 0)) as (E5 & _). rewrite E5.
+  destruct (HF (mstep 32 (x, 0))) as (_ & E4 & _). rewrite E4.
+  destruct (HF (mstep 16 (mstep 32 (x, 0)))) as (_ & _ & E3 & _). rewrite E3.
+  destruct (HF (mstep 8 (mstep 16 (mstep 32 (x, 0))))) as (_ & _ & _ & E2 & _). rewrite E2.
+  destruct (HF (mstep 4 (mstep 8 (mstep 16 (mstep 32 (x, 0)))))) as (_ & _ & _ & _ & E1 & _). rewrite E1.
+  destruct (HF (mstep 2 (mstep 4 (mstep 8 (mstep 16 (mstep 32 (x, 0))))))) as (_ & _ & _ & _ & _ & E0). rewrite E0.
+  destruct (mstep 1 _) as (y, pos). reflexivity.
+Qed.
+
+Lemma mstep_inv : forall e x pos orig, 0 <= e <= 5 -> 0 < x < 2^(2 * 2^e) -> 0 <= pos < 64 ->
+  pos mod (2 * 2^e) = 0 -> Z.log2 orig = pos + Z.log2 x ->
+  let '(x', pos') := mstep (2^e) (x, pos) in
+  0 < x' < 2^(2^e) /\ 0 <= pos' < 64 /\ pos' mod (2^e) = 0 /\ Z.log2 orig = pos' + Z.log2 x'.
+Proof.
+  intros e x pos orig He Hx Hpos Hmod Hlog.
+  assert (Hs : 0 < 2^e) by (apply Z.pow_pos_nonneg; lia).
+  destruct (msb_step x (2^e) Hs Hx) as (Hz & Hbig).
+  unfold mstep. rewrite Hz.
+  destruct (Z.ltb_spec x (2^(2^e))) as [Hlt|Hge]; cbn [negb].
+  - split; [lia|]. split; [lia|]. split; [|exact Hlog].
+    rewrite (Z.mul_comm 2) in Hmod. rewrite Z.rem_mul_r in Hmod by lia.
+    pose proof (Z.mod_pos_bound pos (2^e) ltac:(lia)). pose proof (Z.mod_pos_bound (pos / 2^e) 2 ltac:(lia)). nia.
+  - destruct (Hbig Hge) as (Hx' & Hl).
+    unfold go_shr. replace (2^e <? 0) with false by lia.
+    assert (Hlor : Z.lor pos (2^e) = pos + 2^e).
+    { pose proof (lor_pow2 pos e ltac:(lia) ltac:(lia)) as H.
+      assert (Hm1 : pos mod 2^e = 0).
+      { rewrite (Z.mul_comm 2) in Hmod. rewrite Z.rem_mul_r in Hmod by lia.
+        pose proof (Z.mod_pos_bound pos (2^e) ltac:(lia)). pose proof (Z.mod_pos_bound (pos / 2^e) 2 ltac:(lia)). nia. }
+      rewrite Hm1, Hmod in H. rewrite Z.sub_0_r in H. lia. }
+    rewrite Hlor. split; [exact Hx'|].
+    assert (Hle : pos + 2 * 2^e <= 64).
+    { assert (Hdiv : (2 * 2^e | 64)).
+      { exists (2^(5 - e)). replace (2 * 2^e) with (2^(1 + e)) by (rewrite Z.pow_add_r by lia; reflexivity).
+        rewrite <- Z.pow_add_r by lia. replace (5 - e + (1 + e)) with 6 by lia. reflexivity. }
+      destruct Hdiv as (k & Hk). pose proof (Z.div_mod pos (2 * 2^e) ltac:(lia)) as Hd. rewrite Hmod in Hd.
+      assert (pos / (2 * 2^e) < k) by nia. nia. }
+    split; [lia|]. split; [|lia].
+    rewrite <- Zplus_mod_idemp_r, Z.mod_same, Z.add_0_r by lia.
+    rewrite (Z.mul_comm 2) in Hmod. rewrite Z.rem_mul_r in Hmod by lia.
+    pose proof (Z.mod_pos_bound pos (2^e) ltac:(lia)). pose proof (Z.mod_pos_bound (pos / 2^e) 2 ltac:(lia)). nia.
+Qed.
+
+Lemma findMSB_spec : forall x, 0 < x < 2^64 -> s2_findMSBSetNonZero64 x = Z.log2 x.
+Proof.
+  intros x Hx. rewrite findMSB_unfold.
+  pose proof (mstep_inv 5 x 0 x ltac:(lia) Hx ltac:(lia) eq_refl ltac:(lia)) as H5.
+  change (2^5) with 32 in H5. destruct (mstep 32 (x, 0)) as (x5, p5). destruct H5 as (A5 & B5 & C5 & D5).
+  pose proof (mstep_inv 4 x5 p5 x ltac:(lia) A5 B5 C5 D5) as H4.
+  change (2^4) with 16 in H4. destruct (mstep 16 (x5, p5)) as (x4, p4). destruct H4 as (A4 & B4 & C4 & D4).
+  pose proof (mstep_inv 3 x4 p4 x ltac:(lia) A4 B4 C4 D4) as H3.
+  change (2^3) with 8 in H3. destruct (mstep 8 (x4, p4)) as (x3, p3). destruct H3 as (A3 & B3 & C3 & D3).
+  pose proof (mstep_inv 2 x3 p3 x ltac:(lia) A3 B3 C3 D3) as H2.
+  change (2^2) with 4 in H2. destruct (mstep 4 (x3, p3)) as (x2, p2). destruct H2 as (A2 & B2 & C2 & D2).
+  pose proof (mstep_inv 1 x2 p2 x ltac:(lia) A2 B2 C2 D2) as H1.
+  change (2^1) with 2 in H1. destruct (mstep 2 (x2, p2)) as (x1, p1). destruct H1 as (A1 & B1 & C1 & D1).
+  pose proof (mstep_inv 0 x1 p1 x ltac:(lia) A1 B1 C1 D1) as H0.
+  change (2^0) with 1 in H0. destruct (mstep 1 (x1, p1)) as (x0, p0). destruct H0 as (A0 & B0 & C0 & D0).
+  cbn [snd]. change (2^1) with 2 in A0. assert (x0 = 1) by lia. subst x0. cbn in D0.
+  unfold wrap_i64, wrap_i. rewrite Z.mod_small by lia. replace (p0 <? 2^(64 - 1)) with true by lia. lia.
+Qed.
+
+Lemma lxor_lt_2_64 : forall a b, 0 <= a < 2^64 -> 0 <= b < 2^64 -> 0 <= Z.lxor a b < 2^64.
+Proof.
+  intros a b Ha Hb. split; [apply Z.lxor_nonneg; lia|].
+  destruct (Z.eq_dec (Z.lxor a b) 0) as [->|Hnz]; [lia|].
+  assert (Hpos : 0 < Z.lxor a b) by (pose proof (proj2 (Z.lxor_nonneg a b) ltac:(lia)); lia).
+  apply Z.log2_lt_pow2; [exact Hpos|].
+  pose proof (Z.log2_lxor a b ltac:(lia) ltac:(lia)) as Hl.
+  assert (La : Z.log2 a < 64) by (destruct (Z.eq_dec a 0) as [->|]; [cbn; lia|apply Z.log2_lt_pow2; lia]).
+  assert (Lb : Z.log2 b < 64) by (destruct (Z.eq_dec b 0) as [->|]; [cbn; lia|apply Z.log2_lt_pow2; lia]).
+  lia.
+Qed.
+
+(** CommonAncestorLevel never exceeds the level of either cell *)
+Lemma cal_spec : forall a La b Lb l, valid_at a La -> valid_at b Lb ->
+  s2_CellID_CommonAncestorLevel a b = (l, true) -> 0 <= l <= La /\ l <= Lb.
+Proof.
+  intros a La b Lb l Ha Hb H.
+  pose proof (valid_at_range64 _ _ Ha) as Ra. pose proof (valid_at_range64 _ _ Hb) as Rb.
+  unfold s2_CellID_CommonAncestorLevel in H. cbv zeta in H.
+  rewrite (lsb_spec _ _ Ha), (lsb_spec _ _ Hb) in H.
+  pose proof (lxor_lt_2_64 a b Ra Rb) as Hx. rewrite (wrap_u64_small (Z.lxor a b)) in H by lia.
+  pose proof (lsbL_pos La ltac:(destruct Ha; lia)) as Pa. pose proof (lsbL_pos Lb ltac:(destruct Hb; lia)) as Pb.
+  pose proof (lsbL_le_2_60 La ltac:(destruct Ha; lia)) as Ua. pose proof (lsbL_le_2_60 Lb ltac:(destruct Hb; lia)) as Ub.
+  pows.
+  set (b1 := if Z.lxor a b <? lsbL La then lsbL La else Z.lxor a b) in H.
+  set (b2 := if b1 <? lsbL Lb then lsbL Lb else b1) in H.
+  assert (H1 : lsbL La <= b1 < 2^64) by (unfold b1; destruct (Z.ltb_spec (Z.lxor a b) (lsbL La)); lia).
+  assert (H2 : lsbL La <= b2 < 2^64 /\ lsbL Lb <= b2) by (unfold b2; destruct (Z.ltb_spec b1 (lsbL Lb)); lia).
+  clearbody b2. clear b1 H1.
+  rewrite findMSB_spec in H by lia.
+  destruct (Z.ltb_spec 60 (Z.log2 b2)) as [Hgt|Hle]; [discriminate|].
+  assert (El : l = go_shr (wrap_i64 (60 - Z.log2 b2)) 1) by congruence. clear H. subst l.
+  assert (Ja : 2 * (30 - La) <= Z.log2 b2).
+  { rewrite <- (Z.log2_pow2 (2 * (30 - La))) by (destruct Ha; lia). apply Z.log2_le_mono.
+    rewrite <- lsbL_pow2 by (destruct Ha; lia). lia. }
+  assert (Jb : 2 * (30 - Lb) <= Z.log2 b2).
+  { rewrite <- (Z.log2_pow2 (2 * (30 - Lb))) by (destruct Hb; lia). apply Z.log2_le_mono.
+    rewrite <- lsbL_pow2 by (destruct Hb; lia). lia. }
+  pose proof (Z.log2_nonneg b2) as Hnn.
+  unfold wrap_i64, wrap_i. rewrite Z.mod_small by lia.
+  replace (60 - Z.log2 b2 <? 2^(64 - 1)) with true by (change (2^(64-1)) with 9223372036854775808; lia).
+  unfold go_shr. change (1 <? 0) with false. cbv iota. rewrite Z.shiftr_div_pow2 by lia. change (2^1) with 2.
+  pose proof (Z.div_mod (60 - Z.log2 b2) 2 ltac:(lia)). pose proof (Z.mod_pos_bound (60 - Z.log2 b2) 2 ltac:(lia)).
+  lia.
+Qed.
